@@ -41,6 +41,15 @@ type c16Case struct {
 	// changes (the dots added on the wire do not count).
 	Limited    bool `json:"limited,omitempty"`
 	LimitSlack int  `json:"limit_slack,omitempty"`
+	// StaleClose (with Prior): while the judged message is being written, the
+	// writer of the earlier message is closed once more (a deferred Close):
+	// an error, and not an octet on the wire.
+	StaleClose bool `json:"stale_close,omitempty"`
+	// Sender / RcptLocal: the sender and the local part prefix of the
+	// recipients ("" = sender@x / r<i>@x); drawn from addresses with
+	// characters that mean something to a formatter
+	Sender    string `json:"sender,omitempty"`
+	RcptLocal string `json:"rcpt_local,omitempty"`
 }
 
 // c16Normalise is the reference: bare LF becomes CRLF and a final CRLF is
@@ -60,6 +69,13 @@ func c16Normalise(b []byte) []byte {
 }
 
 func c16Run(c c16Case) Verdict {
+	sender, rcptLocal := "sender@x", "r"
+	if c.Sender != "" {
+		sender = c.Sender
+	}
+	if c.RcptLocal != "" {
+		rcptLocal = c.RcptLocal
+	}
 	script := harness.Script{LMTPSession: c.LMTP}
 	for _, acc := range c.Rcpts {
 		d := harness.Decision{}
@@ -85,7 +101,9 @@ func c16Run(c c16Case) Verdict {
 		}
 	}
 	r := harness.NewRig(cfg, script)
-	var priorErr error
+	var priorErr, staleErr error
+	var priorWriter io.WriteCloser
+	var staleWrote int64
 	var closeErr, close2Err, noopErr, setupErr error
 	var consumed1, consumed2 int64
 	var wantRcpts []string
@@ -117,13 +135,14 @@ func c16Run(c c16Case) Verdict {
 			}
 			io.WriteString(pw, priorBody)
 			priorErr = pw.Close()
+			priorWriter = pw
 		}
-		if err := cl.Mail("sender@x", nil); err != nil {
+		if err := cl.Mail(sender, nil); err != nil {
 			setupErr = err
 			return
 		}
 		for i, acc := range c.Rcpts {
-			to := fmt.Sprintf("r%d@x", i)
+			to := fmt.Sprintf("%s%d@x", rcptLocal, i)
 			err := cl.Rcpt(to, nil)
 			if acc {
 				wantRcpts = append(wantRcpts, to)
@@ -154,6 +173,13 @@ func c16Run(c c16Case) Verdict {
 			}
 			wc.Write(c.Body[prev:s])
 			prev = s
+		}
+		if c.StaleClose && priorWriter != nil {
+			w.WaitQuiet()
+			before := w.S.Consumed()
+			staleErr = priorWriter.Close()
+			w.WaitQuiet()
+			staleWrote = w.S.Consumed() - before
 		}
 		if _, err := wc.Write(c.Body[prev:]); err != nil {
 			setupErr = err
@@ -206,6 +232,18 @@ func c16Run(c c16Case) Verdict {
 	if c.Limited {
 		v.Classes = append(v.Classes, fmt.Sprintf("size_limit_slack_%d", c.LimitSlack))
 	}
+	if c.Sender != "" || c.RcptLocal != "" {
+		v.Classes = append(v.Classes, "addresses_with_format_characters")
+	}
+	if c.StaleClose && c.Prior {
+		v.Classes = append(v.Classes, "earlier_writer_closed_again_mid_message")
+		if staleErr == nil {
+			return failf("second-close", "Close of the earlier message's writer, called again while the next message was being written, returned nil")
+		}
+		if staleWrote != 0 {
+			return failf("second-close-wrote", "Close of the earlier message's writer, called again while the next message was being written, put %d octets on the wire", staleWrote)
+		}
+	}
 	evs := r.B.Events()
 	des := dataEvents(evs)
 	if c.Prior {
@@ -238,7 +276,7 @@ func c16Run(c c16Case) Verdict {
 		return failf("octets-differ", "client wrote %s in writes cut at %v; backend read %s (err %q); expected %s", q(c.Body), c.Splits, q(rec.Bytes), rec.ErrStr, q(want))
 	}
 	mails := eventsOf(evs, "Mail", true)
-	if len(mails) != 1 || mails[0].From != "sender@x" {
+	if len(mails) != 1 || mails[0].From != sender {
 		return failf("sender", "sender arrived as %v", traceString(mails))
 	}
 	var gotRcpts []string
@@ -354,6 +392,11 @@ func c16Gen(t *rapid.T) c16Case {
 	}
 	if rapid.IntRange(0, 2).Draw(t, "limited") == 0 {
 		c.Limited, c.LimitSlack = true, rapid.IntRange(0, 2).Draw(t, "slack")
+	}
+	c.StaleClose = c.Prior && rapid.Bool().Draw(t, "stale_close")
+	if rapid.IntRange(0, 3).Draw(t, "odd_addresses") == 0 {
+		c.Sender = rapid.SampledFrom([]string{"user%example.net@relay", "a%%b@x", "100%@x", "%s@x", "a%20b@x", "%d%v@x", "u+tag=x@d", "first.last@x", "a!#$&'*/?^_`{|}~z@q"}).Draw(t, "sender")
+		c.RcptLocal = rapid.SampledFrom([]string{"r", "r%", "%%r", "x%example.net%", "r+%s=", "r%!"}).Draw(t, "rcpt_local")
 	}
 	return c
 }
